@@ -427,3 +427,45 @@ Proof.
   - vm_compute in E. injection E as _ <-. reflexivity.
   - reflexivity.
 Qed.
+
+(* ---------------------------------------------------------------- content lists parsed again later *)
+(* the value printed by a re-parse is the value at the first parse, whatever happened to the counters afterwards
+   (the builder's state [live] is arbitrary) and whatever page counters are mixed in *)
+Theorem reparse_keeps_first_parse_value st live mixin n :
+  values st n <> [] -> parse_again (first_parse st) live mixin n = values st n.
+Proof.
+  intros H. unfold parse_again, lookup_counter, local_counters, first_parse. cbn [cached].
+  destruct (values st n) as [|x l]; [contradiction|reflexivity].
+Qed.
+
+(* a name that was not an element counter at the first parse gets the page-based value that is mixed in *)
+Theorem reparse_mixes_in_page_counters st live mixin n :
+  values st n = [] -> parse_again (first_parse st) live mixin n = lookup_counter mixin n.
+Proof.
+  intros H. unfold parse_again, lookup_counter, local_counters, first_parse. cbn [cached]. rewrite H. reflexivity.
+Qed.
+
+Theorem reparse_independent_of_live_state b live live' mixin n :
+  parse_again b live mixin n = parse_again b live' mixin n.
+Proof. reflexivity. Qed.
+
+Example reparse_ex :
+  parse_again (first_parse (mkState (fun n => if String.eqb n "ch" then [2] else []) [[]]))
+              init_state (fun n => if String.eqb n "page" then [7] else []) "ch"%string = [2] /\
+  parse_again (first_parse (mkState (fun n => if String.eqb n "ch" then [2] else []) [[]]))
+              init_state (fun n => if String.eqb n "page" then [7] else []) "page"%string = [7].
+Proof. split; reflexivity. Qed.
+
+(* whole documents: every generated box, re-parsed at any later time, prints for every element counter in scope the
+   stack the CSS reference interpreter defines at that box *)
+Corollary document_reparse nd : ok_tree nd ->
+  exists st' o, run_node init_state nd = Some (st', o) /\
+    Forall2 (fun ob r => forall live mixin n, r n <> [] -> parse_again (mkBox ob) live mixin n = r n)
+            o (snd (ref_node init_levels nd)).
+Proof.
+  intros Hok. destruct (document_refines_spec nd Hok) as (st' & o & Hrun & Heq).
+  exists st', o. split; [exact Hrun|]. unfold obs_eq in Heq. clear Hrun.
+  induction Heq as [|ob r o' r' Hob _ IH]; [constructor|]. constructor; [|exact IH].
+  intros live mixin n Hr. unfold parse_again, lookup_counter, local_counters. cbn [cached].
+  rewrite (Hob n). destruct (r n); [contradiction|reflexivity].
+Qed.
